@@ -204,16 +204,21 @@ func judge(in input, o outcome) *super.Violation {
 		return nil
 	}
 	msg := o.err.Error()
-	posRe, rerr := regexp.Compile(regexp.QuoteMeta(in.name) + `:(\d+):(\d+)`)
+	// <name>:<line>:<col> is what the pinned tree writes; a reworded message may say "<name>, line 3,
+	// column 5" or "<name> (3,5)": the name followed closely by two numbers, or the words line ... column
+	posRe, rerr := regexp.Compile(regexp.QuoteMeta(in.name) + `\D{0,12}?(\d+)\D{1,12}?(\d+)`)
 	if rerr != nil {
 		return nil
 	}
 	ms := posRe.FindAllStringSubmatch(msg, -1)
+	if strings.Contains(msg, in.name) {
+		ms = append(ms, lineColWords.FindAllStringSubmatch(msg, -1)...)
+	}
 	if len(ms) == 0 {
 		if !strings.Contains(msg, in.name) {
 			return &super.Violation{Class: "error-without-position", Sig: "error-without-position|no-name", Detail: fmt.Sprintf("error does not name the input: %q\n%s", msg, desc())}
 		}
-		return &super.Violation{Class: "error-without-position", Sig: "error-without-position|no-line-col", Detail: fmt.Sprintf("error has no <name>:<line>:<col>: %q\n%s", msg, desc())}
+		return &super.Violation{Class: "error-without-position", Sig: "error-without-position|no-line-col", Detail: fmt.Sprintf("error names the input but gives no line and column: %q\n%s", msg, desc())}
 	}
 	lines := strings.Split(in.text, "\n")
 	okAny := false
@@ -229,6 +234,8 @@ func judge(in input, o outcome) *super.Violation {
 	}
 	return nil
 }
+
+var lineColWords = regexp.MustCompile(`(?i)\bline\D{0,3}(\d+)\D{1,12}?(?:col|column|char|character|offset)\D{0,3}(\d+)`)
 
 var currentInput string
 
